@@ -217,7 +217,7 @@ def main():
                 for iname in INPUT_NAMES:
                     for dmode in ("arrays", "gnu-ld", "sectcreate1", "sectcreate2"):
                         for mflag in (False, True):
-                            if tier == "quick" and (len(jobs) + len(iname)) % 2:
+                            if tier == "quick" and not (mflag or dmode == "arrays"):
                                 continue
                             jobs.append((name, data, len(data), "valid", {"t": 2, "f": rng.choice([0, 1]), "p": False, "g": False, "m": mflag, "d": dmode, "c": False, "iname": iname}, "plain"))
             # truncation points: every structural boundary and its neighbours, plus a stride (thorough: every byte for small modules)
